@@ -536,8 +536,16 @@ impl<F: Write + Seek> Directory<F> {
     where
         W: FnOnce(&mut DirEntry),
     {
+        // If the entry cannot be written, put the in-memory copy back: the
+        // caller is told that the update failed, and a retry has to start
+        // from what the file holds, not from the half-applied change.
+        let saved = self.dir_entries[stream_id as usize].clone();
         func(&mut self.dir_entries[stream_id as usize]);
-        self.write_dir_entry(stream_id)
+        let result = self.write_dir_entry(stream_id);
+        if result.is_err() {
+            self.dir_entries[stream_id as usize] = saved;
+        }
+        result
     }
 
     /// Calls the given function with a mutable reference to the root directory
